@@ -32,6 +32,9 @@ type HarnessSpec struct {
 	MaxSteps       int                `json:"max_steps"`
 	MaxPaths       int                `json:"max_paths"`
 	Redirects      map[string]string  `json:"redirects"`
+	// ReplayAttempts > 1: the native run of this harness is not deterministic (Go's select picks at
+	// random among ready cases); an unconfirmed counterexample is replayed up to this many times.
+	ReplayAttempts int                `json:"replay_attempts"`
 	Init           []string           `json:"init"`
 	Bounds         map[string]string  `json:"bounds"`
 	BudgetS        map[string]int     `json:"budget_s"`
@@ -694,6 +697,30 @@ func cmdRun(args []string) int {
 					}
 				}
 				nativeNote[c] = strings.Join(o.Lines, " ; ")
+			}
+			for attempt := 1; attempt < p.h.ReplayAttempts; attempt++ {
+				var rjobs []NativeJob
+				var rc []*Candidate
+				for _, c := range p.cands {
+					if !confirmed[c] {
+						rjobs = append(rjobs, NativeJob{hByName[c.Harness].Entry, c.Params, c.Vector})
+						rc = append(rc, c)
+					}
+				}
+				if len(rc) == 0 {
+					break
+				}
+				routs, _, rerr := runNative(*repo, l.overlay, p.h.Pkg, dir, name, p.entries, rjobs, workdir, 10*time.Minute)
+				if rerr != nil {
+					break
+				}
+				for i, c := range rc {
+					o := routs[i]
+					if (c.Kind == "assert" && o.has("VASSERT-FAIL "+c.Label)) || (c.Kind == "panic" && o.has("VPANIC")) {
+						confirmed[c] = true
+						nativeNote[c] = fmt.Sprintf("(reproduced at native attempt %d) ", attempt+1) + strings.Join(o.Lines, " ; ")
+					}
+				}
 			}
 			for i, s := range p.samples {
 				o := outs[len(p.cands)+i]
